@@ -1,6 +1,6 @@
 #!/usr/bin/env python3
 """Record the body digest of every function named by a reason table (rename tolerance, engine/reasons.py)."""
-import json, os, sys
+import ast, json, os, sys
 HERE = os.path.dirname(os.path.dirname(os.path.abspath(__file__)))
 sys.path.insert(0, HERE)
 from engine.model import Model
@@ -15,5 +15,22 @@ for k in sorted(all_reason_keys()):
     else:
         out[k] = body_digest(f)
 out['*functions'] = {k: body_digest(f) for k, f in sorted(m.funcs.items())}       # baseline: which functions existed, with body digests (a function not listed is new unless it is a rename, see Renames / inline)
+def _vocab(f):
+    out = set()
+    for x in ast.walk(f.node):
+        if x is f.node:
+            continue
+        if isinstance(x, ast.Name):
+            out.add(x.id)
+        elif isinstance(x, ast.Attribute):
+            out.add(x.attr)
+        elif isinstance(x, ast.Constant) and not (isinstance(x.value, str) and len(x.value) > 20):
+            out.add(repr(x.value))
+    a = f.node.args
+    return [len(a.posonlyargs + a.args), sorted(out)]
+
+
+# vocabulary of every top-level function / method: used to recognise a function that was renamed AND restyled (engine/inline.py)
+out['*vocab'] = {k: _vocab(f) for k, f in sorted(m.funcs.items()) if f.parent is None and '@' not in k}
 json.dump(out, open(DIGEST_FILE, 'w'), indent=0, sort_keys=True)
 print(len(out), 'digests written;', 'keys without a function (module-level or stale):', missing)
